@@ -239,9 +239,11 @@ def fake_case(col, item):
     rows = [r for r in case["rows"] if r[0] >= 1 and r[4]]
     if not rows:
         return
-    row = rows[n % len(rows)]
+    rows = sorted(rows, key=lambda r: -len(r[4]))
+    row = rows[n % min(2, len(rows))]                 # prefer rows with many expected collocations
     for seed in seeds:
-        conf = dict(configs(n + seed, "quick")[0], output="memory", K=2 + seed % 2)
+        conf = dict(configs(n + seed, "quick")[0], output="memory", K=1 + seed % 3,
+                    split_a=["per-tick", "pairs", "per-tick", "single"][seed % 4])
         try:
             res = one_run(case, row, conf, fakes=True, seed=seed)
         except Exception as ex:
